@@ -904,6 +904,15 @@ def iter_next(it, s):
         if x.idx == 0:
             return x
         return some(it.call_closure(clos, Agg("tuple", [x.f[0]]), ""))
+    if s.ty == "{zip}":
+        a, b = s.f
+        x = iter_next(it, a)
+        if x.idx == 0:
+            return x
+        y = iter_next(it, b)
+        if y.idx == 0:
+            return y
+        return some(Agg("tuple", [x.f[0], y.f[0]]))
     if s.ty == "{rev}":
         sl, i = s.f      # i counts from the end
         if i >= sl.len:
@@ -2278,3 +2287,74 @@ def _box_new_uninit(it, args, dty, func):
 def _box_into_vec(it, args, dty, func):
     arr = args[0].load().f[1].f[0].f[0]
     return Seq("vec", list(arr.f), getattr(arr, "elem_ty", "?"))
+
+
+# --- more iterator combinators --------------------------------------------------------------------------
+def _as_iter_state(v):
+    return v.load() if isinstance(v, Ref) else v
+
+
+@trait_model(r".*", "Iterator", "zip")
+def _iter_zip(it, args, dty, func):
+    b = args[1]
+    bt = _as_iter_state(b)
+    if not (isinstance(bt, Agg) and bt.ty.startswith("{")):
+        bt = _into_iter(it, [b], "", "into_iter")
+    return Agg("{zip}", [args[0], bt])
+
+
+@trait_model(r".*", "Iterator", "fold")
+def _iter_fold(it, args, dty, func):
+    acc = args[1]
+    for x in iter_all(it, _as_iter_state(args[0])):
+        acc = it.call_closure(args[2], Agg("tuple", [acc, x]), "")
+    return acc
+
+
+@trait_model(r".*", "Iterator", "for_each")
+def _iter_for_each(it, args, dty, func):
+    for x in iter_all(it, _as_iter_state(args[0])):
+        it.call_closure(args[1], Agg("tuple", [x]), "")
+    return UNIT
+
+
+@trait_model(r".*", "Iterator", "filter")
+def _iter_filter(it, args, dty, func):
+    out = []
+    for x in iter_all(it, _as_iter_state(args[0])):
+        if it.ctx.branch(it.call_closure(args[1], Agg("tuple", [Ref(Cell(x, "item"), ())]), "bool")):
+            out.append(x)
+    return Agg("{owned_iter}", [Seq("vec", out, "?"), 0])
+
+
+@trait_model(r".*", "Iterator", "take")
+def _iter_take(it, args, dty, func):
+    n = concretize(it, args[1], 4096, "take count")
+    return Agg("{owned_iter}", [Seq("vec", iter_all(it, _as_iter_state(args[0]))[:n], "?"), 0])
+
+
+@trait_model(r".*", "Iterator", "skip")
+def _iter_skip(it, args, dty, func):
+    n = concretize(it, args[1], 4096, "skip count")
+    return Agg("{owned_iter}", [Seq("vec", iter_all(it, _as_iter_state(args[0]))[n:], "?"), 0])
+
+
+@trait_model(r".*", "Iterator", "last")
+def _iter_last(it, args, dty, func):
+    xs = iter_all(it, _as_iter_state(args[0]))
+    return some(xs[-1]) if xs else none()
+
+
+@trait_model(r".*", "Iterator", "chain")
+def _iter_chain(it, args, dty, func):
+    b = _as_iter_state(args[1])
+    if not (isinstance(b, Agg) and b.ty.startswith("{")):
+        b = _into_iter(it, [args[1]], "", "into_iter")
+    return Agg("{owned_iter}", [Seq("vec", iter_all(it, _as_iter_state(args[0])) + iter_all(it, b), "?"), 0])
+
+
+@trait_model(r".*", "Iterator", "copied")
+@trait_model(r".*", "Iterator", "cloned")
+def _iter_copied(it, args, dty, func):
+    xs = [clone_val(x.load() if isinstance(x, Ref) else x) for x in iter_all(it, _as_iter_state(args[0]))]
+    return Agg("{owned_iter}", [Seq("vec", xs, "?"), 0])
